@@ -185,6 +185,19 @@ impl<'g, 'a, 'b> Deriver<'g, 'a, 'b> {
                 let _ = skipping;
             }
         }
+        // rarely a long run (8..24) of whitespace characters with a near miss somewhere inside (chunked / vectorised
+        // scanners treat the first bytes, the full chunks and the tail differently)
+        if skipping && self.src.chance(5) {
+            let n = self.src.range(8, 24);
+            let miss_at = if self.src.chance(150) { self.src.pick(n) } else { n };
+            for i in 0..n {
+                if i == miss_at {
+                    self.out.push(*self.src.choose(NEAR_MISS));
+                } else {
+                    self.out.push(*self.src.choose(WS_CHARS));
+                }
+            }
+        }
         // custom whitespace characters
         if self.g.has_custom_ws() && self.src.chance(40) {
             let pool: &[&str] = &["_", "~", "# c\n", "#\n", "\u{a0}", "\u{2003}", "# no newline"];
